@@ -14,12 +14,14 @@ namespace vmpi {
 struct Config {
     int P;                   // ranks
     bool rendezvous;         // MPI_Send blocks until matched (zero buffering) instead of eager buffering
+    bool delayed;            // a sent message stays in flight until the scheduler takes a separate 'deliver' action for its channel
+                             // (choices >= P in the enabled list: P + ((comm*64 + src)*64 + dst)); default: delivered at once
     int omp_threads;         // size of the virtual OpenMP team
     int omp_order;           // 0 identity, 1 reverse, k>=2: rotation by k-1  (order in which the team members' bodies run)
     bool omp_free;           // run the team members as concurrently running pthreads (for the race-detector pass) instead of one after another
     long horizon;            // max scheduling points per execution
     bool detach_on_stop;     // when an execution stops early (deadlock, cut, ...) leave the blocked rank threads alone (the process is about to exit)
-    Config() : P(1), rendezvous(false), omp_threads(1), omp_order(0), omp_free(false), horizon(50000), detach_on_stop(false) {}
+    Config() : P(1), rendezvous(false), delayed(false), omp_threads(1), omp_order(0), omp_free(false), horizon(50000), detach_on_stop(false) {}
 };
 
 struct Point { uint64_t k1, k2; int chosen; std::vector<int> enabled; std::vector<char> productive; };
